@@ -90,6 +90,8 @@ def m1(ctx):
                 wit = fmt_trace(p.trace)
     if n == 0:
         raise AnalysisError('M1: key builder shape not recognised (no positional segment found)')
+    from .framework import one_shot_reuse
+    reuse = one_shot_reuse(f.node)
     return [
         Ob('M1', 'args_to_key/separator-present', state != 'missing',
            'positional values are followed directly by keyword name/value pairs with no delimiter: f(1, "a", 2) and '
@@ -103,6 +105,10 @@ def m1(ctx):
            'arguments are present): a positional-only call such as f(1, None, "a", 2) then builds the same key as '
            'f(1, a=2)', f.loc(), wit_u),
         Ob('M1', 'args_to_key/types-trail', types_last, 'type segments are not the trailing segments of the key', f.loc()),
+        Ob('M1', 'args_to_key/one-shot-iterators-consumed-once', not reuse,
+           'a generator/iterator bound to a local is consumed more than once on one path (%s): the second consumer sees '
+           'it empty, so the segment it was to contribute (argument values or their types) is missing from the key and '
+           'calls that differ only there share an entry' % (reuse,), f.loc()),
     ]
 
 
@@ -390,6 +396,7 @@ def m3(ctx):
     ok, why = True, ''
     ncalls = 0
     nthreads = 0
+    nmarkers = 0
 
     def all_nested(fn):
         for g in fn.nested.values():
@@ -410,6 +417,18 @@ def m3(ctx):
                     ncalls += 1
                     if not _passes_all_args(e):
                         ok, why = False, '%s calls the function without (*args, **kwargs)' % g.qual
+                # the marker of a running refresh lives in the same cache as the results: it is the call's key extended
+                # by a sentinel no caller can pass; extended by plain constants it IS the key of another call
+                # (args_to_key appends None itself), whose entry then blocks or corrupts the refresh protocol
+                if e.kind == 'CALL' and e.d['name'] == 'add' and not e.d.get('inlined') and e.d['args'] \
+                        and e.d['args'][0].k == 'term' and e.d['args'][0].a[0] == 'Add':
+                    nmarkers += 1
+                    parts = e.d['args'][0].a[1]
+                    ext = [x for x in parts if x.k == 'tuple']
+                    if ext and not any(y.k == 'modconst' for x in ext for y in x.a[0]):
+                        ok, why = False, 'the refresh marker key is the call\'s key extended by %s: that is the key of ' \
+                                         'the same function called with those extra arguments, so the two calls share ' \
+                                         'an entry' % (ext[0],)
                 if e.kind == 'EXT' and e.d['name'] == 'threading.Thread':
                     tgt = e.d['kwargs'].get('target')
                     if tgt is not None and tgt.k == 'func':
